@@ -3646,7 +3646,10 @@ func (vm *Thread) opSelect() value.Value {
 		}
 	}
 
-	chosenCaseIndex, val, channelOpen := reflect.Select(reflectSelectCases)
+	chosenCaseIndex, val, channelOpen, selectErr := selectChannels(reflectSelectCases)
+	if selectErr.IsNotUndefined() {
+		return selectErr
+	}
 	if chosenCaseIndex == 0 {
 		return value.ExecutionAbortedError.ToValue()
 	}
@@ -3700,6 +3703,23 @@ func (vm *Thread) opSelect() value.Value {
 	}
 
 	return value.Undefined
+}
+
+// Runs reflect.Select. A send case on a closed channel makes the Go runtime panic,
+// the panic is turned into `Std::Channel::ClosedError` just like in `Channel#<<`.
+func selectChannels(cases []reflect.SelectCase) (chosen int, val reflect.Value, channelOpen bool, err value.Value) {
+	defer func() {
+		if r := recover(); r != nil {
+			if e, ok := r.(error); ok && e.Error() == "send on closed channel" {
+				err = value.ChannelClosedPushError.ToValue()
+				return
+			}
+			panic(r)
+		}
+	}()
+
+	chosen, val, channelOpen = reflect.Select(cases)
+	return chosen, val, channelOpen, value.Undefined
 }
 
 func (vm *Thread) opExecDefer() value.Value {
